@@ -10,14 +10,14 @@ open Attrs.Init (Val Conv Event EventId)
 /-! ### histories -/
 
 theorem steps_ok (cs : List Cls) (rt : CState) (l : Cls) (e0 : Eff) (hl : Leaf cs rt l e0)
-    (hk : rt.inheritsHooks = false) (rv : Bool) (fault : Option (Nat × Nat)) (ps : List String)
-    (hps : ∀ f ∈ fieldsOf cs, f.name ∈ ps) (h : List Assign) (i : Nat) (st : Store) :
-    stepsOk cs rv fault i (snapshot ps st) h (runHistory rt rv fault ps i st h) = true := by
+    (hk : rt.inheritsHooks = false) (rv : Bool) (fault : Option (Nat × Nat)) (k : Option FaultKind)
+    (ps : List String) (hps : ∀ f ∈ fieldsOf cs, f.name ∈ ps) (h : List Assign) (i : Nat) (st : Store) :
+    stepsOk cs rv fault k i (snapshot ps st) h (runHistory rt rv fault k ps i st h) = true := by
   induction h generalizing i st with
   | nil => rfl
   | cons a rest ih =>
     simp only [runHistory, stepsOk, Bool.and_eq_true]
-    obtain ⟨h1, h2⟩ := step_ok cs rt l e0 hl rv (faultAt fault i) ps st a
+    obtain ⟨h1, h2⟩ := step_ok cs rt l e0 hl rv (faultAt fault i) k ps st a
       (if (assign rt rv (faultAt fault i) st a.name a.value).2.exc.isNone then ctorVal rt rv a else none)
     refine ⟨⟨h1, ?_⟩, ih (i + 1) _⟩
     -- the construction clause
@@ -29,6 +29,7 @@ theorem steps_ok (cs : List Cls) (rt : CState) (l : Cls) (e0 : Eff) (hl : Leaf c
       cases hexc : (assign rt rv (faultAt fault i) st a.name a.value).2.exc with
       | some x => simp
       | none =>
+        simp only [Option.map_none]
         obtain ⟨f, hf, hget⟩ := h2 hdd hexc
         have hct := ctorVal_plain cs rt rv a f hl.inv hk hf
         have hmem : a.name ∈ ps := by
